@@ -1,6 +1,531 @@
-/- C05 (placeholder while the harness is being built; replaced by the real theorems) -/
-import BacVerif.Model.Tsm
+/-
+  C05 — segmented transfers deliver the exact payload and survive any single fault.
+
+  Model: `BacVerif.Tsm` (py34/bacpypes/appservice.py after fixes/Tsm-1 … Tsm-10 and
+  fixes/C05-server-first-segment-seq0), `step : Cfg → Sap → Event → Sap × List Out`.
+
+  What is proved here (all universally quantified, no size bound except the
+  stated `≤ 256 segments`):
+
+  * `segment_partition` / `slices_partition` — the slices `get_segment` cuts
+    are a partition of the payload for EVERY payload and EVERY size ≥ 1,
+    `count = max 1 ⌈len/size⌉`, no slice empty unless the payload is;
+  * wire lemmas — `segment_wire` (one `get_segment`), `window_segments`
+    (`fill_window`: consecutive indices from the window start, actual window
+    in every frame, at most `window` frames: `window_bound`), lifted to every
+    `send` output of `step` by `wire_step_A` / `wire_step_B`;
+  * `client_append_in_order`, `server_append_in_order`,
+    `duplicates_never_extend` — a segment frame is appended iff its sequence
+    number is `(last+1) % 256`, otherwise buffer/state unchanged + exactly one
+    negative ack;
+  * the two-party theorem: `Sys` = client access point A, server access point
+    B, a medium holding every frame ever sent between them; the adversary
+    (`Move`) may deliver ANY in-flight frame to its addressee at ANY time, any
+    number of times (duplication, reordering, arbitrary delay), drop any
+    frame, fire the timers and advance the clocks of both sides, let A's
+    application submit the request and B's application answer at any moment.
+    `reassembly_inv`: the invariant `SysInv` (receiver buffers are
+    `concat (segments 0..j)`, `lastSequenceNumber = j`; senders hold the
+    payload and the fixed geometry; only genuine frames are in flight) holds
+    in every reachable state; `payload_exact_partial`: whenever B indicates
+    the request to its application it carries exactly `P`, whenever A
+    confirms a ComplexAck to its application it carries exactly `R`;
+    `truncation_impossible_partial`: any other outcome A's application sees
+    is not a ComplexAck (abort / error / reject).
+
+  Partial / not proved:
+  * the `_partial` theorems carry ONE hypothesis beyond the property's own
+    "≤ 256 segments": `guardA` — while A's transaction is still SENDING its
+    segmented request (state SEGMENTED_REQUEST) the medium does not deliver a
+    response segment with a non-zero sequence number to it.
+    `ClientSSM.segmented_request` opens the response buffer from any segmented
+    ComplexAck without testing `apduSeq == 0` (the twin of the defect repaired
+    by fixes/C05-server-first-segment-seq0 on the server side).  Inside ONE
+    transaction no such frame can exist (B emits segment ≥ 1 only after a
+    segment ack of A, which A emits only in SEGMENTED_CONFIRMATION, a state it
+    never leaves for SEGMENTED_REQUEST) — that coupling argument is not
+    formalised; see notes/C05.md.
+  * beyond 256 segments the theorem needs FIFO channels (loss + duplication
+    without overtaking by ≥ 256 segments); not proved — decided on the
+    implementation by the lockstep `long` stream and the end-to-end long runs.
+  * `single_fault_progress` (leads-to) is NOT proved; the clause "any one
+    fault is repaired" is decided on the implementation by the exhaustive
+    single-fault sweep of harness/c05_impl.py.
+-/
+import BacVerif.Lemmas.TsmC05A
+import BacVerif.Props.C12
 namespace BacVerif.C05
 open BacVerif.Tsm
-theorem placeholder : (1 : Nat) = 1 := rfl
+set_option linter.unusedSimpArgs false
+set_option linter.unusedVariables false
+
+/-! ## 1. the slices partition the payload -/
+
+/-- **segment_partition (every payload, every size ≥ 1).** -/
+theorem slices_partition (P : Bytes) {size : Nat} (h : 0 < size) :
+    let count := max 1 (ceilDiv P.length size)
+    slicesUpTo P size count = P ∧
+    (∀ i, i < count → (sliceOf P size i).length ≤ size) ∧
+    (∀ i, i + 1 < count → (sliceOf P size i).length = size) ∧
+    (P ≠ [] → ∀ i, i < count → sliceOf P size i ≠ []) ∧
+    (∀ i, count ≤ i → sliceOf P size i = []) := Tsm.slices_partition P h
+
+/-- **segment_partition (through the model's `setSegmentSize`).**  For every
+    payload, maximum APDU and header pair: if `set_segment_size` yields
+    `(size, count)` then concatenating the slices 0..count−1 gives the payload,
+    `count = max 1 ⌈len/size⌉`, every slice has at most `size` octets and is
+    non-empty unless the payload is empty, and `count = 1` exactly when the
+    payload fits unsegmented. -/
+theorem segment_partition (P : Bytes) {M uh sh size count : Nat} (hle : uh ≤ sh)
+    (h : setSegmentSize P.length M uh sh = some (size, count)) :
+    slicesUpTo P size count = P ∧
+    count = max 1 ((P.length + size - 1) / size) ∧
+    (∀ i, i < count → (sliceOf P size i).length ≤ size) ∧
+    (P ≠ [] → ∀ i, i < count → sliceOf P size i ≠ []) ∧
+    (count = 1 ↔ P.length + uh ≤ M) := Tsm.segment_partition P hle h
+
+/-- the payload of the frame `getSegment i` IS the `i`-th slice -/
+theorem segment_payload {cfg : Cfg} {k : Key} {b : Body} {i w : Nat} {a c : Apdu}
+    (hctx : b.ctx = some c) (h : getSegment cfg k b i w = .ok a) :
+    a.data = sliceOf c.data b.segSize i := by
+  obtain ⟨hdr, _, _, rfl⟩ := getSegment_full hctx h
+  rfl
+
+/-- non-vacuity of `segment_partition`: 100 octets for a peer accepting 50 → 3 slices of 44, 44, 12 -/
+example :
+    setSegmentSize 100 50 4 6 = some (44, 3) ∧
+    (List.range 3).map (fun i => (sliceOf (List.replicate 100 (7 : UInt8)) 44 i).length) = [44, 44, 12] := by
+  decide +kernel
+
+/-! ## 2. wire lemmas -/
+
+/-- **wire lemma.**  Every segment `get_segment(i)` builds: sequence number
+    `i % 256`, more-follows `= (i + 1 < count)` (i.e. `i < count − 1`), the
+    `i`-th slice, the first segment carries the proposed window, later ones
+    the window handed in (the actual window, `window_segments`). -/
+theorem segment_wire {cfg : Cfg} {k : Key} {b : Body} {i w : Nat} {a c : Apdu}
+    (hctx : b.ctx = some c) (hid : c.invokeId = k.id) (hn1 : b.segCount ≠ 1)
+    (h : getSegment cfg k b i w = .ok a) :
+    a.seg = true ∧ i < b.segCount ∧ a.seq = i % 256 ∧ a.mor = decide (i + 1 < b.segCount) ∧
+    a.data = sliceOf c.data b.segSize i ∧ (i = 0 → a.win = cfg.window) ∧ (i ≠ 0 → a.win = w) := by
+  obtain ⟨_, _, hlt, _, g5, _⟩ := getSegment_genuine hctx hid h
+  obtain ⟨hs, hseg, h0, h1⟩ := g5 hn1
+  exact ⟨hs, hlt, hseg.seq, hseg.mor, hseg.data, h0, h1⟩
+
+/-- **window_bound / window_segments.**  One `fill_window(start)` with the
+    actual window `w` emits at most `w` frames (C12.window_in_flight), each is
+    `get_segment(j)` carrying `w` for a `j` with `start ≤ j < start + w`: never
+    more unacknowledged segments than the agreed window. -/
+theorem window_segments {cfg : Cfg} {k : Key} {b : Body} {start w : Nat} (hw : b.window = some w) :
+    (fillWindow cfg k b start).sent.length ≤ w ∧
+    ∀ seg ∈ (fillWindow cfg k b start).sent,
+      ∃ j, start ≤ j ∧ j < start + w ∧ getSegment cfg k b j w = .ok seg :=
+  ⟨BacVerif.C12.window_in_flight k b start hw, fillWindow_index hw⟩
+
+theorem window_bound {cfg : Cfg} (k : Key) (b : Body) (start : Nat) {w : Nat} (hw : b.window = some w) :
+    (fillWindow cfg k b start).sent.length ≤ w := BacVerif.C12.window_in_flight k b start hw
+
+/-! ## 3. the receiver appends in order -/
+
+theorem client_append_in_order {cfg : Cfg} {now : Nat} {k : Key} {b : Body} {a c : Apdu} {w : Nat}
+    {r : Option Body} {outs : List Out} (hty : a.ty = 3) (hseg : a.seg = true)
+    (hw : b.window = some w) (hc : b.ctx = some c)
+    (h : clientSegmentedConfirmation cfg now k b a = (r, outs)) :
+    (a.seq = (b.lastSeq + 1) % 256 →
+      (a.mor = true → ∃ b', r = some b' ∧ b'.ctx = some { c with data := c.data ++ a.data } ∧
+          b'.lastSeq = (b.lastSeq + 1) % 256 ∧ b'.st = b.st ∧ b'.window = b.window ∧ b.sameCaps b' ∧
+          ∀ o ∈ outs, o = .send k.peer (mkSegAck false false k.id ((b.lastSeq + 1) % 256) w)) ∧
+      (a.mor = false → r = none ∧
+          outs = [.send k.peer (mkSegAck false false k.id ((b.lastSeq + 1) % 256) w),
+                  .confirm k.peer { c with data := c.data ++ a.data }])) ∧
+    (a.seq ≠ (b.lastSeq + 1) % 256 →
+      ∃ b', r = some b' ∧ b'.ctx = b.ctx ∧ b'.lastSeq = b.lastSeq ∧ b'.st = b.st ∧
+        b'.window = b.window ∧ b.sameCaps b' ∧
+        outs = [.send k.peer (mkSegAck true false k.id b.lastSeq w)]) :=
+  Tsm.client_append_in_order hty hseg hw hc h
+
+theorem server_append_in_order {cfg : Cfg} {now : Nat} {k : Key} {b : Body} {a c : Apdu} {w : Nat}
+    {r : Option Body} {outs : List Out} (hty : a.ty = 0) (hseg : a.seg = true)
+    (hw : b.window = some w) (hc : b.ctx = some c)
+    (h : serverSegmentedRequest cfg now k b a = (r, outs)) :
+    (a.seq = (b.lastSeq + 1) % 256 →
+      (a.mor = true → ∃ b', r = some b' ∧ b'.ctx = some { c with data := c.data ++ a.data } ∧
+          b'.lastSeq = (b.lastSeq + 1) % 256 ∧ b'.st = b.st ∧ b'.window = b.window ∧ b.sameCaps b' ∧
+          ∀ o ∈ outs, o = .send k.peer (mkSegAck false true k.id ((b.lastSeq + 1) % 256) w)) ∧
+      (a.mor = false → (∃ b', r = some b' ∧ b'.st = .awaitResp ∧ b.sameCaps b') ∧
+          outs = [.send k.peer (mkSegAck false true k.id ((b.lastSeq + 1) % 256) w),
+                  .indicate k.peer { c with data := c.data ++ a.data }])) ∧
+    (a.seq ≠ (b.lastSeq + 1) % 256 →
+      ∃ b', r = some b' ∧ b'.ctx = b.ctx ∧ b'.lastSeq = b.lastSeq ∧ b'.st = b.st ∧
+        b'.window = b.window ∧ b.sameCaps b' ∧
+        outs = [.send k.peer (mkSegAck true true k.id b.initSeq w)]) :=
+  Tsm.server_append_in_order hty hseg hw hc h
+
+/-- duplicates never extend the buffer: a frame repeating the last accepted
+    sequence number is not the next one, so `*_append_in_order` leaves the
+    buffer unchanged -/
+theorem duplicates_never_extend {last seq : Nat} (hl : last < 256) (hd : seq = last) :
+    seq ≠ (last + 1) % 256 := duplicate_not_next hl hd
+
+/-! ## 4. two parties and a hostile medium -/
+
+/-- client access point A, server access point B, the medium: every frame in
+    flight, `true` = travelling from A to B -/
+structure Sys where
+  a : Sap
+  b : Sap
+  net : List (Bool × Apdu) := []
+
+/-- the frames a step hands to the network layer for `peer` -/
+def framesTo (peer : Peer) : List Out → List Apdu
+  | [] => []
+  | .send q f :: os => if q = peer then f :: framesTo peer os else framesTo peer os
+  | _ :: os => framesTo peer os
+
+theorem mem_framesTo {peer : Peer} {f : Apdu} : ∀ {outs : List Out}, f ∈ framesTo peer outs →
+    Out.send peer f ∈ outs := by
+  intro outs
+  induction outs with
+  | nil => intro h; cases h
+  | cons o os ih =>
+    intro h
+    cases o with
+    | send q g =>
+      simp only [framesTo] at h
+      split at h
+      · rename_i hq
+        simp only [List.mem_cons] at h
+        rcases h with h | h
+        · subst h; subst hq; exact List.mem_cons_self
+        · exact List.mem_cons_of_mem _ (ih h)
+      · exact List.mem_cons_of_mem _ (ih h)
+    | indicate q g => exact List.mem_cons_of_mem _ (ih h)
+    | confirm q g => exact List.mem_cons_of_mem _ (ih h)
+    | confirmAnon c e => exact List.mem_cons_of_mem _ (ih h)
+    | raised r => exact List.mem_cons_of_mem _ (ih h)
+
+/-- `guardA`: see the file header (the one hypothesis of the `_partial` theorems) -/
+def guardA (p : Params) (a : Sap) (f : Apdu) : Bool :=
+  match findTxn p.kA a.clients with
+  | some t => !(t.body.st = .segReq && f.ty = 3 && f.seg && f.seq ≠ 0)
+  | none => true
+
+/-- what the environment may do -/
+inductive Move
+  /-- A's application submits the request (payload `P`); `chosen` = its invoke ID, if it picks one -/
+  | submit (chosen : Option Nat)
+  /-- B's application answers with a ComplexAck carrying `R` -/
+  | answer
+  /-- in-flight frame number `i` arrives at B (it stays in flight: it may arrive again) -/
+  | deliverB (i : Nat)
+  /-- in-flight frame number `i` arrives at A -/
+  | deliverA (i : Nat)
+  /-- in-flight frame number `i` is lost -/
+  | drop (i : Nat)
+  /-- the timer of the transaction fires (the model runs it only when it is armed and due) -/
+  | timeoutA
+  | timeoutB
+  /-- the clocks advance -/
+  | tickA (dt : Nat)
+  | tickB (dt : Nat)
+deriving Repr
+
+/-- put the frames of a step on the medium -/
+def Sys.sentA (p : Params) (s : Sys) (r : Sap × List Out) : Sys × List Out × List Out :=
+  ({ s with a := r.1, net := s.net ++ (framesTo p.peerB r.2).map (fun f => (true, f)) }, r.2, [])
+
+def Sys.sentB (p : Params) (s : Sys) (r : Sap × List Out) : Sys × List Out × List Out :=
+  ({ s with b := r.1, net := s.net ++ (framesTo p.peerA r.2).map (fun f => (false, f)) }, [], r.2)
+
+/-- one move: new system, what A handed to its environment, what B did -/
+def Sys.move (p : Params) (cfgA cfgB : Cfg) (s : Sys) : Move → Sys × List Out × List Out
+  | .submit chosen => s.sentA p (step cfgA s.a (.request p.peerB p.svc p.P chosen))
+  | .answer =>
+    s.sentB p (step cfgB s.b (.response p.peerA { ty := 3, invokeId := p.id, service := p.svc, data := p.R }))
+  | .deliverB i =>
+    match s.net[i]? with
+    | some (true, f) => s.sentB p (step cfgB s.b (.frame p.peerA f))
+    | _ => (s, [], [])
+  | .deliverA i =>
+    match s.net[i]? with
+    | some (false, f) =>
+      if guardA p s.a f then s.sentA p (step cfgA s.a (.frame p.peerB f)) else (s, [], [])
+    | _ => (s, [], [])
+  | .drop i => ({ s with net := s.net.eraseIdx i }, [], [])
+  | .timeoutA => s.sentA p (step cfgA s.a (.timeout false p.peerB p.id))
+  | .timeoutB => s.sentB p (step cfgB s.b (.timeout true p.peerA p.id))
+  | .tickA dt => s.sentA p (step cfgA s.a (.tick dt))
+  | .tickB dt => s.sentB p (step cfgB s.b (.tick dt))
+
+/-- any sequence of moves; the outputs of both sides, concatenated -/
+def Sys.run (p : Params) (cfgA cfgB : Cfg) : Sys → List Move → Sys × List Out × List Out
+  | s, [] => (s, [], [])
+  | s, m :: ms =>
+    let r1 := s.move p cfgA cfgB m
+    let r2 := Sys.run p cfgA cfgB r1.1 ms
+    (r2.1, r1.2.1 ++ r2.2.1, r1.2.2 ++ r2.2.2)
+
+/-- a frame in flight is genuine: toward B a ConfirmedRequest of the exchange is
+    a frame of `TP` with the constant capability header; toward A nothing is a
+    ConfirmedRequest and a ComplexAck of the exchange is a frame of `TR` -/
+def NetOk (p : Params) (d : Bool) (f : Apdu) : Prop :=
+  if d then p.ReqFrame f else f.ty ≠ 0 ∧ Genuine p.TR f
+
+/-- the invariant of the two-party system -/
+structure SysInv (p : Params) (cfgA cfgB : Cfg) (devA devB : List (Peer × DeviceInfo)) (s : Sys) : Prop where
+  /-- A: senders hold `P` with the fixed geometry, the receiver of (B, id) holds `concat (slices 0..j)` of `R` -/
+  a : (specA p cfgA devA).Holds s.a
+  /-- B: the receiver of (A, id) holds `concat (slices 0..j)` of `P`, senders hold `R` with the fixed geometry -/
+  b : (specB p cfgB devB).Holds s.b
+  /-- only genuine frames are in flight -/
+  net : ∀ d f, (d, f) ∈ s.net → NetOk p d f
+
+/-- B's record of A (if it has one) already says that A receives segments, so
+    `ServerSSM.idle` has nothing to promote (device information does not change
+    during the exchange) -/
+def StableB (p : Params) (devB : List (Peer × DeviceInfo)) : Prop :=
+  ∀ d, lookupDI devB p.peerA = some d → ∀ sa, promote sa (some d) = some d
+
+section
+variable {p : Params} {cfgA cfgB : Cfg} {devA devB : List (Peer × DeviceInfo)}
+
+theorem guardA_spec {a : Sap} {f : Apdu} (h : guardA p a f = true) {t : Txn}
+    (ht : findTxn p.kA a.clients = some t) (hst : t.body.st = .segReq) (h3 : f.ty = 3)
+    (hseg : f.seg = true) : f.seq = 0 := by
+  unfold guardA at h
+  rw [ht] at h
+  simp only [hst, h3, hseg, decide_true, Bool.true_and, Bool.not_eq_true', decide_eq_false_iff_not,
+    ne_eq, Decidable.not_not] at h
+  exact h
+
+theorem sentA_inv {s : Sys} (hi : SysInv p cfgA cfgB devA devB s) {r : Sap × List Out}
+    (hg : (specA p cfgA devA).Good r) :
+    SysInv p cfgA cfgB devA devB (s.sentA p r).1 ∧ ∀ o ∈ (s.sentA p r).2.1, (specA p cfgA devA).OO o := by
+  refine ⟨⟨hg.1, hi.b, ?_⟩, hg.2⟩
+  intro d f hm
+  simp only [Sys.sentA, List.mem_append, List.mem_map] at hm
+  rcases hm with hm | ⟨f', hf', he⟩
+  · exact hi.net d f hm
+  · cases he
+    have := (hg.2 _ (mem_framesTo hf')).2.1 p.peerB f rfl rfl
+    exact this
+
+theorem sentB_inv {s : Sys} (hi : SysInv p cfgA cfgB devA devB s) {r : Sap × List Out}
+    (hg : (specB p cfgB devB).Good r) :
+    SysInv p cfgA cfgB devA devB (s.sentB p r).1 ∧ ∀ o ∈ (s.sentB p r).2.2, (specB p cfgB devB).OO o := by
+  refine ⟨⟨hi.a, hg.1, ?_⟩, hg.2⟩
+  intro d f hm
+  simp only [Sys.sentB, List.mem_append, List.mem_map] at hm
+  rcases hm with hm | ⟨f', hf', he⟩
+  · exact hi.net d f hm
+  · cases he
+    have ho := hg.2 _ (mem_framesTo hf')
+    exact ⟨ho.1 p.peerA f rfl, ho.2.1 p.peerA f rfl rfl⟩
+
+/-- what one move guarantees -/
+structure MoveOk (p : Params) (cfgA cfgB : Cfg) (devA devB : List (Peer × DeviceInfo))
+    (x : Sys × List Out × List Out) : Prop where
+  inv : SysInv p cfgA cfgB devA devB x.1
+  outA : ∀ o ∈ x.2.1, (specA p cfgA devA).OO o
+  outB : ∀ o ∈ x.2.2, (specB p cfgB devB).OO o
+
+theorem moveOk_A {s : Sys} (hi : SysInv p cfgA cfgB devA devB s) {r : Sap × List Out}
+    (hg : (specA p cfgA devA).Good r) : MoveOk p cfgA cfgB devA devB (s.sentA p r) :=
+  ⟨(sentA_inv hi hg).1, (sentA_inv hi hg).2, (by intro o h; cases h)⟩
+
+theorem moveOk_B {s : Sys} (hi : SysInv p cfgA cfgB devA devB s) {r : Sap × List Out}
+    (hg : (specB p cfgB devB).Good r) : MoveOk p cfgA cfgB devA devB (s.sentB p r) :=
+  ⟨(sentB_inv hi hg).1, (by intro o h; cases h), (sentB_inv hi hg).2⟩
+
+theorem moveOk_id {s : Sys} (hi : SysInv p cfgA cfgB devA devB s) :
+    MoveOk p cfgA cfgB devA devB (s, [], []) :=
+  ⟨hi, (by intro o h; cases h), (by intro o h; cases h)⟩
+
+/-- **reassembly_inv (one move).**  Every move of the environment keeps the
+    invariant, and everything either side hands to its environment satisfies
+    the output guarantees of `specA` / `specB`. -/
+theorem move_ok (g : p.Geo cfgA cfgB devA devB) (hstab : StableB p devB) {s : Sys}
+    (hi : SysInv p cfgA cfgB devA devB s) (m : Move) :
+    MoveOk p cfgA cfgB devA devB (s.move p cfgA cfgB m) := by
+  have sa := specA_sound g
+  have sb := specB_sound g
+  cases m with
+  | submit chosen =>
+    refine moveOk_A hi (Local.step_good _ sa hi.a _ ?_)
+    intro id _; exact ⟨rfl, rfl⟩
+  | answer =>
+    refine moveOk_B hi (Local.step_good _ sb hi.b _ ?_)
+    intro t _ _ _; exact ⟨rfl, rfl⟩
+  | deliverB i =>
+    simp only [Sys.move]
+    split
+    · rename_i f hf
+      have hm : (true, f) ∈ s.net := List.mem_of_getElem? hf
+      have hn : p.ReqFrame f := by simpa [NetOk] using hi.net _ _ hm
+      refine moveOk_B hi (Local.step_good _ sb hi.b _ ⟨fun _ _ => trivial, ?_, ?_⟩)
+      · intro t _ _; exact hn
+      · intro _ _
+        exact ⟨fun _ => hn, fun d hd => hstab d hd f.sa⟩
+    · exact moveOk_id hi
+  | deliverA i =>
+    simp only [Sys.move]
+    split
+    · rename_i f hf
+      have hm : (false, f) ∈ s.net := List.mem_of_getElem? hf
+      have hn : f.ty ≠ 0 ∧ Genuine p.TR f := by simpa [NetOk] using hi.net _ _ hm
+      split
+      · rename_i hgd
+        refine moveOk_A hi (Local.step_good _ sa hi.a _ ⟨?_, fun _ _ => trivial, ?_⟩)
+        · intro t ht hk
+          refine ⟨fun _ => hn.2, ?_⟩
+          obtain ⟨_, hkey⟩ := findTxn_some ht
+          rw [← hkey, hk] at ht
+          exact guardA_spec hgd ht
+        · intro h0; exact absurd h0 hn.1
+      · exact moveOk_id hi
+    · exact moveOk_id hi
+  | drop i =>
+    refine ⟨⟨hi.a, hi.b, ?_⟩, (by intro o h; cases h), (by intro o h; cases h)⟩
+    intro d f hm
+    exact hi.net d f (List.mem_of_mem_eraseIdx hm)
+  | timeoutA => exact moveOk_A hi (Local.step_good _ sa hi.a _ trivial)
+  | timeoutB => exact moveOk_B hi (Local.step_good _ sb hi.b _ trivial)
+  | tickA dt => exact moveOk_A hi (Local.step_good _ sa hi.a _ trivial)
+  | tickB dt => exact moveOk_B hi (Local.step_good _ sb hi.b _ trivial)
+
+/-- **reassembly_inv.**  After ANY sequence of moves — arbitrary loss,
+    duplication, reordering and delay of genuine frames, timer expiries,
+    submissions and answers at any moment — the invariant holds: every
+    receiving transaction of the exchange holds exactly
+    `concat (segments 0..j)` with `lastSequenceNumber = j`. -/
+theorem reassembly_inv (g : p.Geo cfgA cfgB devA devB) (hstab : StableB p devB) :
+    ∀ (ms : List Move) {s : Sys}, SysInv p cfgA cfgB devA devB s →
+      MoveOk p cfgA cfgB devA devB (Sys.run p cfgA cfgB s ms) := by
+  intro ms
+  induction ms with
+  | nil => intro s hi; exact moveOk_id hi
+  | cons m ms ih =>
+    intro s hi
+    have h1 := move_ok g hstab hi m
+    have h2 := ih h1.inv
+    simp only [Sys.run]
+    refine ⟨h2.inv, ?_, ?_⟩
+    · intro o ho
+      simp only [List.mem_append] at ho
+      rcases ho with ho | ho
+      · exact h1.outA o ho
+      · exact h2.outA o ho
+    · intro o ho
+      simp only [List.mem_append] at ho
+      rcases ho with ho | ho
+      · exact h1.outB o ho
+      · exact h2.outB o ho
+
+/-- the buffer of the receiving server transaction, spelled out -/
+theorem reassembly_server {s : Sys} (hi : SysInv p cfgA cfgB devA devB s) {t : Txn}
+    (ht : t ∈ s.b.servers) (hk : t.key = p.kB) (hst : t.body.st = .segReq) :
+    ∃ c j, t.body.ctx = some c ∧ j + 1 < p.countP ∧ t.body.lastSeq = j ∧
+      c.data = slicesUpTo p.P p.sizeP (j + 1) := by
+  obtain ⟨c, _, _, hb⟩ := (hi.b.srv t ht).2.1 hst
+  obtain ⟨c', j, w, h1, h2, h3, h4, _⟩ := hb hk
+  exact ⟨c', j, h1, h2, h3, h4⟩
+
+/-- the buffer of the receiving client transaction, spelled out -/
+theorem reassembly_client {s : Sys} (hi : SysInv p cfgA cfgB devA devB s) {t : Txn}
+    (ht : t ∈ s.a.clients) (hk : t.key = p.kA) (hst : t.body.st = .segConf) :
+    ∃ c j, t.body.ctx = some c ∧ j + 1 < p.countR ∧ t.body.lastSeq = j ∧
+      c.data = slicesUpTo p.R p.sizeR (j + 1) := by
+  obtain ⟨c, _, _, hb⟩ := (hi.a.cli t ht).2 hst
+  obtain ⟨c', j, w, h1, h2, h3, h4, _⟩ := hb hk
+  exact ⟨c', j, h1, h2, h3, h4⟩
+
+/-- the initial system: two fresh access points with their caches, nothing in flight -/
+def Sys.init (devA devB : List (Peer × DeviceInfo)) : Sys :=
+  { a := { devInfo := devA }, b := { devInfo := devB } }
+
+theorem init_inv : SysInv p cfgA cfgB devA devB (Sys.init devA devB) :=
+  ⟨⟨rfl, (by intro t h; cases h), (by intro t h; cases h)⟩,
+   ⟨rfl, (by intro t h; cases h), (by intro t h; cases h)⟩,
+   (by intro d f h; cases h)⟩
+
+/-- **payload_exact (partial: `guardA`, see the file header).**  While each
+    direction has at most 256 segments (`Geo.leP`, `Geo.leR`), under ARBITRARY
+    drop / duplication / reordering / delay of genuine frames, timer expiries
+    at any time:
+    * whenever B indicates the request of the exchange to its application, it
+      carries octet for octet the payload `P` A's application submitted;
+    * whenever A confirms a ComplexAck of the exchange to its application, it
+      carries octet for octet the payload `R` B's application submitted.
+
+    Full statement (not proved): the same with `deliverA` unguarded. -/
+theorem payload_exact_partial (g : p.Geo cfgA cfgB devA devB) (hstab : StableB p devB) (ms : List Move) :
+    let r := Sys.run p cfgA cfgB (Sys.init devA devB) ms
+    (∀ x, Out.indicate p.peerA x ∈ r.2.2 → x.ty = 0 → x.invokeId = p.id → x.data = p.P) ∧
+    (∀ x, Out.confirm p.peerB x ∈ r.2.1 → x.ty = 3 → x.invokeId = p.id → x.data = p.R) := by
+  intro r
+  have h := reassembly_inv g hstab ms (init_inv (p := p) (cfgA := cfgA) (cfgB := cfgB))
+  refine ⟨?_, ?_⟩
+  · intro x hx h0 hid
+    exact (h.outB _ hx).2.2 p.peerA x rfl rfl h0 hid
+  · intro x hx h3 hid
+    exact (h.outA _ hx).2.2 p.peerB x rfl rfl h3 hid
+
+/-- **truncation_impossible (partial: `guardA`).**  Whatever A's application
+    is told about the exchange that is NOT the exact response payload is not a
+    ComplexAck at all: it is an abort (or an error / reject PDU) — never a
+    truncated, duplicated or re-ordered payload; and B's application is never
+    indicated a request of the exchange with any other content than `P`. -/
+theorem truncation_impossible_partial (g : p.Geo cfgA cfgB devA devB) (hstab : StableB p devB)
+    (ms : List Move) :
+    let r := Sys.run p cfgA cfgB (Sys.init devA devB) ms
+    (∀ x, Out.confirm p.peerB x ∈ r.2.1 → x.invokeId = p.id → x.data ≠ p.R → x.ty ≠ 3) ∧
+    (∀ x, Out.indicate p.peerA x ∈ r.2.2 → x.invokeId = p.id → x.data ≠ p.P → x.ty ≠ 0) := by
+  intro r
+  obtain ⟨h1, h2⟩ := payload_exact_partial g hstab ms
+  exact ⟨fun x hx hid hne h3 => hne (h2 x hx h3 hid), fun x hx hid hne h0 => hne (h1 x hx h0 hid)⟩
+
+/-- **wire lemmas lifted to every step (client).**  In every reachable state,
+    every ConfirmedRequest frame of the exchange A hands to the network is the
+    unsegmented whole (one slice) or segment `i` with sequence number
+    `i % 256`, more-follows `= (i + 1 < count)` and the `i`-th slice, under the
+    constant capability header. -/
+theorem wire_step_A (g : p.Geo cfgA cfgB devA devB) (hstab : StableB p devB) (ms : List Move) :
+    ∀ f, Out.send p.peerB f ∈ (Sys.run p cfgA cfgB (Sys.init devA devB) ms).2.1 →
+      f.ty = 0 → f.invokeId = p.id →
+      ReqHdr p.mr p.ms p.sa p.svc f ∧
+      (p.countP = 1 → f.seg = false ∧ f.data = p.P) ∧
+      (p.countP ≠ 1 → f.seg = true ∧ ∃ i, i < p.countP ∧ f.seq = i % 256 ∧
+          f.mor = decide (i + 1 < p.countP) ∧ f.data = sliceOf p.P p.sizeP i) := by
+  intro f hf h0 hid
+  have h := reassembly_inv g hstab ms (init_inv (p := p) (cfgA := cfgA) (cfgB := cfgB))
+  obtain ⟨hg, hh⟩ := (h.outA _ hf).2.1 p.peerB f rfl rfl h0 hid
+  obtain ⟨g1, g2⟩ := hg h0 hid
+  refine ⟨hh, g1, ?_⟩
+  intro hn
+  obtain ⟨s1, i, hi⟩ := g2 hn
+  exact ⟨s1, i, hi.lt, hi.seq, hi.mor, hi.data⟩
+
+/-- **wire lemmas lifted to every step (server).**  The same for every
+    ComplexAck frame of the exchange B hands to the network; and B never emits
+    a ConfirmedRequest. -/
+theorem wire_step_B (g : p.Geo cfgA cfgB devA devB) (hstab : StableB p devB) (ms : List Move) :
+    ∀ f, Out.send p.peerA f ∈ (Sys.run p cfgA cfgB (Sys.init devA devB) ms).2.2 →
+      f.ty ≠ 0 ∧
+      (f.ty = 3 → f.invokeId = p.id →
+        (p.countR = 1 → f.seg = false ∧ f.data = p.R) ∧
+        (p.countR ≠ 1 → f.seg = true ∧ ∃ i, i < p.countR ∧ f.seq = i % 256 ∧
+            f.mor = decide (i + 1 < p.countR) ∧ f.data = sliceOf p.R p.sizeR i)) := by
+  intro f hf
+  have h := reassembly_inv g hstab ms (init_inv (p := p) (cfgA := cfgA) (cfgB := cfgB))
+  have ho := h.outB _ hf
+  refine ⟨ho.1 p.peerA f rfl, ?_⟩
+  intro h3 hid
+  obtain ⟨g1, g2⟩ := ho.2.1 p.peerA f rfl rfl h3 hid
+  refine ⟨g1, ?_⟩
+  intro hn
+  obtain ⟨s1, i, hi⟩ := g2 hn
+  exact ⟨s1, i, hi.lt, hi.seq, hi.mor, hi.data⟩
+
+end
+
 end BacVerif.C05
